@@ -243,6 +243,15 @@ impl Phase for RandomSeq {
             *k += 1;
             match r.below(if depth == 0 { 7 } else { 10 }) {
                 0 => Ast::Empty,
+                1 if r.chance(1, 3) => {
+                    // text elements that contain what separates elements, comments or literals elsewhere
+                    let t = *r.pick(&["a//b", "http://example.org", "/*", "*/", "/* c */", "c:\\", "\\", "x;y", "1, 2", "(", ")", "\"q\"", "", "//", ";", ",", "a\\\"", "\\\\"]);
+                    if r.chance(1, 2) {
+                        Ast::Const(RV::Str(t.to_string()))
+                    } else {
+                        Ast::Assign("=", "s".into(), Box::new(Ast::Const(RV::Str(t.to_string()))))
+                    }
+                },
                 1 => Ast::Const(RV::Int(*k)),
                 2 => Ast::Read((*r.pick(&["a", "a", "e0", "e1"])).to_string()),
                 3 | 4 => Ast::Assign("=", "x".into(), Box::new(Ast::Const(RV::Int(*k)))),
